@@ -38,13 +38,15 @@ var (
 // CatalogCfg tunes catalog generation.
 type CatalogCfg struct {
 	MinTypes, MaxTypes int
-	Reserved           bool    // add reserved offerings
-	Overrides          bool    // capacity/overhead overrides on some offerings
-	GPU                bool    // some types carry the extended resource
-	PUnavailable       float64 // probability an offering is unavailable
-	PriceTies          bool
-	SpotInversion      bool // spot sometimes dearer than on-demand
-	Windows            bool
+	Reserved           bool // add reserved offerings
+	// PReservedUnavailable: probability that a reserved offering is marked unavailable (an exhausted capacity reservation)
+	PReservedUnavailable float64
+	Overrides            bool    // capacity/overhead overrides on some offerings
+	GPU                  bool    // some types carry the extended resource
+	PUnavailable         float64 // probability an offering is unavailable
+	PriceTies            bool
+	SpotInversion        bool // spot sometimes dearer than on-demand
+	Windows              bool
 }
 
 func DefaultCatalogCfg() CatalogCfg {
@@ -67,12 +69,12 @@ type TypeSpec struct {
 }
 
 type OfferingSpec struct {
-	Zone, CapType string
-	Price         float64
-	Available     bool
-	ReservationID string
+	Zone, CapType       string
+	Price               float64
+	Available           bool
+	ReservationID       string
 	ReservationCapacity int
-	CPUOverride   int // 0 = none
+	CPUOverride         int // 0 = none
 }
 
 // Catalog generates instance types. The same rng state always yields the same catalog.
@@ -123,8 +125,14 @@ func Catalog(rng *rand.Rand, cfg CatalogCfg, prefix string) ([]*cloudprovider.In
 				spec.Offerings = append(spec.Offerings, o)
 			}
 			if cfg.Reserved && rng.Intn(3) == 0 {
-				spec.Offerings = append(spec.Offerings, OfferingSpec{Zone: Zones[zi], CapType: v1.CapacityTypeReserved, Price: round4(base * 0.01), Available: true,
-					ReservationID: fmt.Sprintf("r-%d", rng.Intn(3)), ReservationCapacity: rng.Intn(4)})
+				ro := OfferingSpec{Zone: Zones[zi], CapType: v1.CapacityTypeReserved, Price: round4(base * 0.01), Available: true,
+					ReservationID: fmt.Sprintf("r-%d", rng.Intn(3)), ReservationCapacity: rng.Intn(4)}
+				if cfg.PReservedUnavailable > 0 && rng.Float64() < cfg.PReservedUnavailable {
+					ro.ReservationCapacity = 0
+				}
+				// provider contract (see the fake / AWS providers): a reservation without remaining capacity is offered as unavailable
+				ro.Available = ro.ReservationCapacity > 0
+				spec.Offerings = append(spec.Offerings, ro)
 			}
 		}
 		if len(spec.Offerings) == 0 {
